@@ -28,7 +28,7 @@ def get_build(key):
         if len(key) > 2 and key[2]:
             text = re.sub(r"(?m)^language:.*\n", "", text)
             text = "language: %s\n" % key[2] + text
-        b = cgen.build(text, {hdr: lib_text(hdr)})
+        b = cgen.build(text, {hdr: lib_text(hdr)}, extra_includes=[os.path.join(os.path.dirname(LIBDIR), "luastub")])
         if b.errors:
             raise RuntimeError("generated code does not compile: %s" % b.errors[0][:800])
         _BUILDS[key] = b
